@@ -59,6 +59,35 @@ func gen(t *rapid.T) Case {
 			c.G = long
 		}
 	}
+	if c.Neg == "" && rapid.IntRange(0, 149).Draw(t, "wide") == 77 {
+		// wide containers: thousands of members (also just around 10000) in a collection or a multi-geometry, optionally
+		// with a small nested collection as the last member
+		n := rapid.OneOf(rapid.IntRange(9990, 10010), rapid.IntRange(1500, 12000), rapid.IntRange(1020, 1030)).Draw(t, "widen")
+		pt := func(i int) vkit.GJ { return vkit.GJ{T: "Point", Pts: []vkit.P2{vkit.MkP(float64(i), -0.5*float64(i))}} }
+		switch rapid.IntRange(0, 3).Draw(t, "widekind") {
+		case 0, 1:
+			w := vkit.GJ{T: "GeometryCollection"}
+			for i := 0; i < n; i++ {
+				w.Geoms = append(w.Geoms, pt(i))
+			}
+			if rapid.Bool().Draw(t, "widetail") {
+				w.Geoms = append(w.Geoms, vkit.GJ{T: "GeometryCollection", Geoms: []vkit.GJ{{T: "GeometryCollection", Geoms: []vkit.GJ{pt(-1)}}, {T: "MultiPoint", Pts: []vkit.P2{vkit.MkP(3, 4)}}}})
+			}
+			c.G = w
+		case 2:
+			w := vkit.GJ{T: "MultiLineString"}
+			for i := 0; i < n; i++ {
+				w.Rings = append(w.Rings, []vkit.P2{vkit.MkP(float64(i), 1), vkit.MkP(float64(i), 2)})
+			}
+			c.G = w
+		default:
+			w := vkit.GJ{T: "MultiPolygon"}
+			for i := 0; i < n; i++ {
+				w.Polys = append(w.Polys, [][]vkit.P2{{vkit.MkP(float64(i), 0), vkit.MkP(float64(i)+0.5, 1), vkit.MkP(float64(i), 1)}})
+			}
+			c.G = w
+		}
+	}
 	c.BigEndian = rapid.Bool().Draw(t, "be")
 	c.Orders = rapid.SliceOfN(rapid.Bool(), 1, 12).Draw(t, "orders")
 	return c
@@ -101,7 +130,13 @@ func run(c Case) (v vkit.Verdict) {
 		}
 		return v
 	}
-	g := c.G.Geom()
+	g, sameG := vkit.SharedGeom(c.G)
+	defer func() {
+		if m := sameG(); m != "" && !v.Bad {
+			v = v.Fail("the call changed the geometry it was given (point lists are sub-slices of one array with spare capacity): %s", m)
+		}
+	}()
+
 	mixed := false
 	nel := vkit.WKBElements(c.G)
 	for i := 0; i < nel; i++ {
@@ -207,7 +242,7 @@ func TestProp(t *testing.T) {
 	vkit.Main(t, vkit.Spec[Case]{
 		ID: "C05",
 		Rule: "rapid-generated geometries of the seven encodable types (collections nested to depth<=4, member counts 0-6, " +
-			"coordinates from arbitrary 64-bit patterns; 2.5% of the cases carry a point array of 500-5000 points with lengths concentrated around multiples of 1024, the decoder's read block) x encoder byte order x per-element byte-order list for an independent " +
+			"coordinates from arbitrary 64-bit patterns; 2.5% of the cases carry a point array of 500-5000 points with lengths concentrated around multiples of 1024, the decoder's read block; under 1% are wide containers - a collection, multi-line-string or multi-polygon of 1000-12000 members, concentrated around 10000, optionally ending in a small nested collection) x encoder byte order x per-element byte-order list for an independent " +
 			"OGC WKB writer; non-trivial = nesting depth>=2, or an empty member, or a NaN/Inf/-0/subnormal coordinate, or mixed " +
 			"per-element byte orders; distinct = distinct FNV-64 hash of the case JSON",
 		Assumptions: []string{"the reference serializer in props/c05 follows the OGC simple-features WKB layout", "nil and empty slices are identified"},
